@@ -70,6 +70,12 @@ func runC06(c *Ctx) {
 		}
 		for _, in := range b.Instrs {
 			if p, ok := in.(*ssa.Phi); ok {
+				if p.Comment == "||" || p.Comment == "&&" {
+					// the value of a short-circuit expression, not a variable: it joins
+					// operands computed in this iteration (an operand that is itself
+					// carried round the loop is a phi of its own and is examined as such)
+					continue
+				}
 				phis = append(phis, p)
 			}
 		}
